@@ -35,7 +35,9 @@ RULE = {
             "(all for frames <= 24 bytes in the thorough tier, sampled otherwise), byte substitution at every "
             "position, deletion / insertion / truncation at every offset, alone or preceded / followed by valid "
             "frames, in one read or split; every delivery must be justified by a span of the input whose "
-            "integrity check holds (reference receiver in Coq)"),
+            "integrity check holds and, on TCP, whose PDU has exactly the length its function code defines (reference "
+            "receiver in Coq); a_lenfield: the MBAP length field alone corrupted (every single-bit flip of its two bytes, "
+            "+1, +8, +16, -1) followed by one and two valid frames in the same and in later reads, both directions"),
     "C11": ("[ascii] garbage prefixes (random bytes, delimiter runs, bad-LRC frames, abandoned partial frames, "
             "foreign-unit frames, lenient-hex look-alikes, valid-LRC frames the decoder rejects) followed by 70+ "
             "valid frames (> 2 maximum-size frames of traffic), one per read / several per read / all in one read; "
@@ -84,7 +86,9 @@ MANIFEST_PART = {
                      "is justified by such a span of buffer++chunk (C07_deliveries_ascii, C07_deliveries_tcp - no "
                      "exception left since the socket framer's error path is gone). Every bit flip, substitution, deletion, insertion and truncation of real "
                      "frames is replayed against the code and judged by a reference receiver written in Coq."),
-            "note": "Fixed (witness must pass): TCP error path delivered a bogus message from a 1..7-byte buffer."},
+            "note": ("Open: F-C07-tcp-wrong-length-pdu-accepted - the socket framer checks no PDU length and several decode() "
+                     "methods tolerate trailing/missing bytes (C07_deliveries_tcp_pdu_len_partial / C07_tcp_pdu_len_refuted). "
+                     "Fixed (witness must pass): TCP error path delivered a bogus message from a 1..7-byte buffer.")},
     "C11": {"text": ("ASCII half: from the synchronised state every read of whole frames, one or several per read, any mix of "
                      "served and foreign units, delivers exactly the accepted ones and ends synchronised (C11_after_sync_ascii); arbitrary cutting never loses a frame "
                      "(C11_backlog_ascii); the scan loop terminates from any state on any input "
@@ -573,10 +577,56 @@ def suite_cuts_extreme(tier):
 
 # ----------------------------------------------------------------------------- C07
 
+def spec_pdu_len(direction, pdu):
+    """PDU length defined by the function code (python copy of FrSpecA.spec_pdu_len; used by classify only)"""
+    if not pdu:
+        return None
+    fc = pdu[0]
+
+    def counted(pos, base):
+        return base + pdu[pos] if pos < len(pdu) else base
+    if direction == "server":
+        if fc in (1, 2, 3, 4, 5, 6):
+            return 5
+        if fc in (7, 11, 12, 17):
+            return 1
+        if fc in (15, 16):
+            return counted(5, 6)
+        if fc in (20, 21):
+            return counted(1, 2)
+        return {22: 7, 24: 3}.get(fc, counted(9, 10) if fc == 23 else None)
+    if fc >= 128:
+        return 2
+    if fc in (1, 2, 3, 4, 12, 17, 20, 21, 23):
+        return counted(1, 2)
+    if fc in (5, 6, 11, 15, 16):
+        return 5
+    return {7: 2, 22: 7}.get(fc)
+
+
+# decoders that accept a PDU longer / shorter than its function code defines (probed on the real code; open finding)
+TOLERANT_LONG = {"server": {7, 11, 12, 17, 15, 16, 20, 21, 23}, "client": {1, 2, 3, 4, 7, 12, 17, 20, 21, 23} | set(range(128, 256))}
+TOLERANT_SHORT = {"server": {15, 21}, "client": {1, 2, 17, 20, 21}}
+
+
+def length_region(desc):
+    """True if every delivered PDU of inconsistent length lies in the region of the open finding"""
+    bad = []
+    for o in desc["impl"]:
+        for d in o["delivered"]:
+            pdu = bytes.fromhex(d[0])
+            n = spec_pdu_len(desc["decoder"], pdu)
+            if n is not None and n != len(pdu):
+                bad.append((pdu[0], len(pdu) > n))
+    if not bad:
+        return False
+    return all(fc in (TOLERANT_LONG if longer else TOLERANT_SHORT)[desc["decoder"]] for fc, longer in bad)
+
+
 def corrupt_case(kind, direction, units, single, chunks, label, info):
     obs, tbl, errcalls, ok = feed(kind, direction, units, single, chunks)
-    term = "(%s, %s, %s, %s, %s)" % (KINDS[kind], cfg_term(units, single), table_term(tbl),
-                                     lst(hx(c) for c in chunks), lst(obs_term(o) for o in obs))
+    term = "(%s, %s, %s, %s, %s, %s)" % (KINDS[kind], "true" if direction == "server" else "false", cfg_term(units, single),
+                                         table_term(tbl), lst(hx(c) for c in chunks), lst(obs_term(o) for o in obs))
     desc = {"framer": kind, "decoder": direction, "units": list(units), "single": single,
             "chunks": [bytes(c).hex() for c in chunks], "error_path_calls": errcalls, "impl": summarize(obs),
             "label": label, "info": info, "decoder_consistent": ok}
@@ -689,6 +739,38 @@ def suite_corrupt(tier):
     return Suite("a_corrupt", IMPORTS, "chk_c07", cases, shard=120)
 
 
+def suite_lenfield(tier):
+    """TCP: the MBAP length field corrupted (every single-bit flip of its two bytes, +1, +8, +16, -1) while
+    the PDU is intact, FOLLOWED by one and two valid frames in the same and in later reads"""
+    r = common.rng("a_lenfield")
+    cases = []
+    for direction in ("server", "client"):
+        msgs = messages(direction, r, small=True)
+        if tier == "quick":
+            msgs = msgs[:]          # every message class of the direction once
+        for m in msgs:
+            uid = r.choice([1, 17, 247])
+            f = (r.choice([1, 0x0102, 0xfffe]), 0, uid, pdu_of(m))
+            frame = adu("tcp", f)
+            ln = len(f[3]) + 1
+            variants = [ln ^ (1 << b) for b in range(16)] + [ln + 1, ln + 8, ln + 16, ln - 1]
+            if tier == "quick":
+                variants = [ln ^ (1 << b) for b in (0, 1, 2, 3, 4, 8)] + [ln + 1, ln + 8, ln + 16, ln - 1] if m is not msgs[0] else variants
+            for v in variants:
+                if not 0 <= v < 65536:
+                    continue
+                bad = frame[:4] + v.to_bytes(2, "big") + frame[6:]
+                g = [adu("tcp", rand_frame(r, direction, uid, small=True)) for _ in range(2)]
+                for nfollow in (1, 2):
+                    tail = g[:nfollow]
+                    for how in ("same-read", "later-reads"):
+                        chunks = [bad + b"".join(tail)] if how == "same-read" else [bad] + tail
+                        units, single = r.choice([([uid], False), ([3], True)])
+                        cases.append(corrupt_case("tcp", direction, units, single, chunks, "lenfield-%s" % how,
+                                                  {"frame": frame.hex(), "length_field": v, "class": type(m).__name__}))
+    return Suite("a_lenfield", IMPORTS, "chk_c07", cases, shard=150)
+
+
 # ----------------------------------------------------------------------------- C11 (ASCII)
 
 def garbage(r, direction, uid, kindsel):
@@ -790,7 +872,7 @@ def suites_for(pid, tier):
     if pid == "C06":
         return [suite_cuts_small(tier), suite_cuts_multi(tier), suite_cuts_extreme(tier)]
     if pid == "C07":
-        return [suite_corrupt(tier)]
+        return [suite_corrupt(tier), suite_lenfield(tier)]
     if pid == "C11":
         return [suite_resync(tier)]
     return []
@@ -835,6 +917,8 @@ def classify_for(pid, suite, desc):
     if pid == "C06":
         return None          # the former regions (1..7-byte TCP buffer, foreign-unit reset) are fixed: nothing is absorbed
     if pid == "C07":
+        if fr == "tcp" and length_region(desc):
+            return "F-C07-tcp-wrong-length-pdu-accepted"
         return None          # the former region (_process(error=True)) is fixed
     if pid == "C11":
         if desc.get("excs"):
@@ -910,7 +994,7 @@ def replay_case_for(pid, suite, desc):
         c = feed_case(desc["framer"], desc["decoder"], desc["units"], desc["single"], frames,
                       [bytes.fromhex(x) for x in desc["chunks"]], "replay")
         r = coqrun.eval_cases("A_replay", IMPORTS, "chk_c06", [c.term])
-    elif suite == "a_corrupt":
+    elif suite in ("a_corrupt", "a_lenfield"):
         c = corrupt_case(desc["framer"], desc["decoder"], desc["units"], desc["single"],
                          [bytes.fromhex(x) for x in desc["chunks"]], "replay", {})
         r = coqrun.eval_cases("A_replay", IMPORTS, "chk_c07", [c.term])
